@@ -136,4 +136,1286 @@ theorem exampleReq_wf : WF exampleReq :=
   { method_ne := by decide, method_tok := by decide, target_ne := by decide, target_ok := by decide,
     lines_ok := by decide, one_host := by decide, framing := by decide }
 
+-- ============================================================ rejection ==
+
+/-- the context-free ambiguous shapes: bad name, connection-specific field,
+    `te` ≠ trailers, forbidden value byte, `content-length` not 1*DIGIT -/
+def BadShape (kv : Bytes × Bytes) : Prop :=
+  (kv.1 = [] ∨ (kv.1.head? ≠ some 58 ∧ hasInvalidNameByte kv.1 = true))
+  ∨ isConnectionSpecific kv.1 = true
+  ∨ (eqNoCase kv.1 sTe = true ∧ eqNoCase kv.2 sTrailers = false)
+  ∨ kv.2.any isBadValueByte = true
+  ∨ (eqNoCase kv.1 sContentLength = true ∧ (kv.2 = [] ∨ kv.2.all isDigit = false))
+
+theorem classifyValue_bad (v : Bytes) (h : v.any isBadValueByte = true) : classifyValue v ≠ none := by
+  unfold classifyValue
+  split
+  · simp
+  · next h1 =>
+    split
+    · simp
+    · next h2 =>
+      exfalso
+      simp only [List.any_eq_true, isBadValueByte, Bool.or_eq_true, beq_iff_eq] at h h1 h2
+      obtain ⟨b, hb, hbad⟩ := h
+      rcases hbad with hbad | hbad
+      · exact h2 ⟨b, hb, hbad⟩
+      · exact h1 ⟨b, hb, hbad⟩
+
+theorem lowerB_eq_58 {c : Nat} (h : lowerB c = 58) : c = 58 := by
+  unfold lowerB isUpper at h
+  split at h
+  · next hu => simp at hu; omega
+  · exact h
+
+theorem head_of_eqNoCase {k name : Bytes} (h : eqNoCase k name = true) (hn : name.head? = some 58)
+    (hl : lower name = name) : k.head? = some 58 := by
+  simp only [eqNoCase, beq_iff_eq, hl] at h
+  cases k with
+  | nil => simp [lower] at h; subst h; simp at hn
+  | cons c t =>
+    cases name with
+    | nil => simp at hn
+    | cons n nt =>
+      simp only [lower, List.map_cons, List.cons.injEq] at h
+      simp only [List.head?_cons, Option.some.injEq] at hn ⊢
+      subst hn
+      exact lowerB_eq_58 h.1
+
+theorem eqNoCase_trans_const {k a b : Bytes} (h : eqNoCase k a = true) : eqNoCase k b = (lower a == lower b) := by
+  simp only [eqNoCase, beq_iff_eq] at h
+  simp [eqNoCase, h]
+
+theorem cl_head {k : Bytes} (h : eqNoCase k sContentLength = true) : (k.head? == some 58) = false := by
+  simp only [eqNoCase, beq_iff_eq] at h
+  cases k with
+  | nil => simp [lower, sContentLength] at h
+  | cons c t =>
+    simp only [lower, List.map_cons, sContentLength, List.cons.injEq] at h
+    have : c ≠ 58 := by
+      intro hc; subst hc
+      have := h.1
+      simp [lowerB, isUpper] at this
+    simp [this]
+
+theorem perHeader_cl_bad (lim : Limits) (s : VS) (k v : Bytes) (hk : eqNoCase k sContentLength = true)
+    (hv : v = [] ∨ v.all isDigit = false) : ∃ e, perHeader lim s k v = .error e := by
+  unfold perHeader
+  rw [eqNoCase_trans_const (b := sMethod) hk, eqNoCase_trans_const (b := sScheme) hk,
+    eqNoCase_trans_const (b := sPath) hk, eqNoCase_trans_const (b := sAuthority) hk,
+    eqNoCase_trans_const (b := sCookie) hk, eqNoCase_trans_const (b := sHost) hk, cl_head hk]
+  have e1 : (lower sContentLength == lower sMethod) = false := by decide
+  have e2 : (lower sContentLength == lower sScheme) = false := by decide
+  have e3 : (lower sContentLength == lower sPath) = false := by decide
+  have e4 : (lower sContentLength == lower sAuthority) = false := by decide
+  have e5 : (lower sContentLength == lower sCookie) = false := by decide
+  have e6 : (lower sContentLength == lower sHost) = false := by decide
+  simp only [e1, e2, e3, e4, e5, e6, Bool.false_eq_true, ↓reduceIte]
+  unfold writeRegular
+  simp only [hk, ↓reduceIte]
+  rcases hv with hv | hv
+  · subst hv; exact ⟨.duplicateCl, by simp⟩
+  · exact ⟨.duplicateCl, by simp [hv]⟩
+
+theorem stepHeader_bad (lim : Limits) (s : VS) (kv : Bytes × Bytes) (h : BadShape kv) :
+    ∃ e, stepHeader lim s kv = .error e := by
+  unfold stepHeader
+  simp only
+  split
+  · exact ⟨_, rfl⟩
+  · split
+    · exact ⟨_, rfl⟩
+    · cases hc : classifyHeader kv.1 kv.2 with
+      | some r => exact ⟨r, rfl⟩
+      | none =>
+        simp only
+        rcases h with h | h | h | h | h
+        · exfalso
+          unfold classifyHeader at hc
+          rcases h with h | ⟨h1, h2⟩
+          · simp [h] at hc
+          · have : (kv.1.head? != some 58) = true := by simp [h1]
+            simp [this, h2] at hc
+        · exfalso
+          unfold classifyHeader at hc
+          simp [h] at hc
+          split at hc <;> (try simp at hc)
+          split at hc <;> simp at hc
+        · exfalso
+          unfold classifyHeader at hc
+          simp [h.1, h.2] at hc
+          split at hc <;> (try simp at hc)
+          split at hc <;> (try simp at hc)
+          split at hc <;> simp at hc
+        · exfalso
+          have := classifyValue_bad kv.2 h
+          unfold classifyHeader at hc
+          split at hc <;> (try simp at hc)
+          split at hc <;> (try simp at hc)
+          split at hc <;> (try simp at hc)
+          split at hc <;> (try simp at hc)
+          exact this hc
+        · exact perHeader_cl_bad lim _ kv.1 kv.2 h.1 h.2
+
+theorem foldHeaders_error_mem (lim : Limits) (hl : List (Bytes × Bytes)) (kv : Bytes × Bytes) (hm : kv ∈ hl)
+    (hbad : ∀ s, ∃ e, stepHeader lim s kv = .error e) : ∀ s, ∃ e, foldHeaders lim hl s = .error e := by
+  induction hl with
+  | nil => simp at hm
+  | cons x tl ih =>
+    intro s
+    unfold foldHeaders
+    cases hs : stepHeader lim s x with
+    | error r => exact ⟨r, rfl⟩
+    | ok s' =>
+      simp only
+      rcases List.mem_cons.mp hm with rfl | hm'
+      · obtain ⟨e, he⟩ := hbad s; rw [he] at hs; cases hs
+      · exact ih hm' s'
+
+theorem validate_error_of_fold (lim : Limits) (es : Bool) (hl : List (Bytes × Bytes))
+    (h : ∃ e, foldHeaders lim hl {} = .error e) : ∃ e, validateRequest lim es hl = .error e := by
+  obtain ⟨e, he⟩ := h
+  exact ⟨e, by simp [validateRequest, decodeRequest, he]⟩
+
+theorem validate_rejects_bad_shape (lim : Limits) (es : Bool) (hl : List (Bytes × Bytes))
+    (h : ∃ kv ∈ hl, BadShape kv) : ∃ e, validateRequest lim es hl = .error e := by
+  obtain ⟨kv, hm, hb⟩ := h
+  exact validate_error_of_fold lim es hl
+    (foldHeaders_error_mem lim hl kv hm (fun s => stepHeader_bad lim s kv hb) {})
+
+-- ================================================= what one step changes ==
+
+/-- the part of the state the cookie loop never touches -/
+def SameCore (s s' : VS) : Prop :=
+  s'.method = s.method ∧ s'.authority = s.authority ∧ s'.path = s.path ∧ s'.scheme = s.scheme ∧
+  s'.regular = s.regular ∧ s'.body = s.body ∧ s'.hostValue = s.hostValue ∧ s'.hostConflict = s.hostConflict
+
+theorem cookieLoop_core (lim : Limits) (segs : List Bytes) (first : Bool) (s s' : VS)
+    (h : cookieLoop lim segs first s = .ok s') : SameCore s s' := by
+  induction segs generalizing first s with
+  | nil => simp [cookieLoop] at h; subst h; simp [SameCore]
+  | cons seg rest ih =>
+    unfold cookieLoop at h
+    simp only at h
+    repeat' (split at h)
+    all_goals first
+      | cases h
+      | exact ih _ _ h
+      | (have := ih _ _ h; simpa [SameCore] using this)
+
+/-- monotone facts of a successful callback: a set pseudo-header stays set with
+    the same value, `regular` stays set, a declared length stays the same -/
+structure Ext (s s' : VS) : Prop where
+  regular : s.regular = true → s'.regular = true
+  method : ∀ x, s.method = some x → s'.method = some x
+  authority : ∀ x, s.authority = some x → s'.authority = some x
+  path : ∀ x, s.path = some x → s'.path = some x
+  scheme : ∀ x, s.scheme = some x → s'.scheme = some x
+  body : ∀ n, s.body = .length n → s'.body = .length n
+  hostConflict : s.hostConflict = true → s'.hostConflict = true
+
+theorem Ext.refl (s : VS) : Ext s s := ⟨id, fun _ => id, fun _ => id, fun _ => id, fun _ => id, fun _ => id, id⟩
+
+theorem Ext.trans {a b c : VS} (h1 : Ext a b) (h2 : Ext b c) : Ext a c :=
+  ⟨fun h => h2.regular (h1.regular h), fun x h => h2.method x (h1.method x h),
+   fun x h => h2.authority x (h1.authority x h), fun x h => h2.path x (h1.path x h),
+   fun x h => h2.scheme x (h1.scheme x h), fun n h => h2.body n (h1.body n h),
+   fun h => h2.hostConflict (h1.hostConflict h)⟩
+
+theorem storePseudo_ok {dest : Option Bytes} {reg : Bool} {v x : Bytes} (h : storePseudo dest reg v = .ok x) :
+    dest = none ∧ reg = false ∧ x = v ∧ v ≠ [] ∧ v.any isBadPseudoByte = false := by
+  unfold storePseudo at h
+  split at h; · cases h
+  split at h; · cases h
+  split at h; · cases h
+  split at h; · cases h
+  next h1 h2 h3 h4 =>
+  cases h
+  refine ⟨by cases dest <;> simp_all, by simpa using h2, rfl, by intro e; simp [e] at h3, by simpa using h4⟩
+
+theorem setContentLength_some {b b' : BodySize} {n : Nat} (h : setContentLength b n = some b') :
+    b' = .length n ∧ ∀ m, b = .length m → m = n := by
+  unfold setContentLength at h
+  split at h
+  · next e =>
+    split at h
+    · cases h
+    · next hne => cases h; exact ⟨rfl, fun m hm => by cases hm; simpa using hne⟩
+  · cases h; exact ⟨rfl, fun m hm => by simp_all⟩
+
+theorem writeRegular_ok {lim : Limits} {s s' : VS} {k v : Bytes} (h : writeRegular lim s k v = .ok s') :
+    s'.fields = s.fields ++ [.hdr k v] ∧ s'.jar = s.jar ∧ s'.method = s.method ∧ s'.authority = s.authority ∧
+    s'.path = s.path ∧ s'.scheme = s.scheme ∧ s'.regular = s.regular ∧ s'.hostValue = s.hostValue ∧
+    s'.hostConflict = s.hostConflict ∧ s'.cookiesAdded = s.cookiesAdded ∧
+    ((eqNoCase k sContentLength = false ∧ s'.body = s.body) ∨
+     (eqNoCase k sContentLength = true ∧ v ≠ [] ∧ v.all isDigit = true ∧ s'.body = .length (decVal v) ∧
+        ∀ m, s.body = .length m → m = decVal v)) := by
+  unfold writeRegular at h
+  split at h
+  · next hk =>
+    split at h; · cases h
+    split at h; · cases h
+    next h1 h2 =>
+    cases hsc : setContentLength s.body (decVal v) with
+    | none => simp [hsc] at h
+    | some b =>
+      simp only [hsc] at h
+      cases h
+      have := setContentLength_some hsc
+      simp only [Bool.or_eq_true, Bool.not_eq_true', not_or, Bool.not_eq_true, Bool.not_eq_false] at h1
+      refine ⟨rfl, rfl, rfl, rfl, rfl, rfl, rfl, rfl, rfl, rfl, .inr ⟨hk, ?_, h1.2, this.1, this.2⟩⟩
+      intro e; simp [e] at h1
+  · next hk =>
+    cases h
+    exact ⟨rfl, rfl, rfl, rfl, rfl, rfl, rfl, rfl, rfl, rfl, .inl ⟨by simpa using hk, rfl⟩⟩
+
+theorem map_ok {ε α β : Type} {f : α → β} {e : Except ε α} {b : β} (h : e.map f = .ok b) :
+    ∃ a, e = .ok a ∧ f a = b := by
+  cases e with
+  | error x => simp [Except.map] at h
+  | ok a => exact ⟨a, rfl, by simpa [Except.map] using h⟩
+
+/-- `k` is none of the request pseudo-headers and does not start with `:` -/
+def NotPseudo (k : Bytes) : Prop :=
+  eqNoCase k sMethod = false ∧ eqNoCase k sScheme = false ∧ eqNoCase k sPath = false ∧
+  eqNoCase k sAuthority = false ∧ (k.head? == some 58) = false
+
+/-- the branches of the request closure of `handle_header`, with what each does -/
+theorem perHeader_cases {lim : Limits} {s s' : VS} {k v : Bytes} (h : perHeader lim s k v = .ok s') :
+    (eqNoCase k sMethod = true ∧ s.method = none ∧ s.regular = false ∧ v ≠ [] ∧ v.all isTchar = true ∧
+        s' = { s with method := some v })
+    ∨ (eqNoCase k sScheme = true ∧ s.scheme = none ∧ s.regular = false ∧ s' = { s with scheme := some v })
+    ∨ (eqNoCase k sPath = true ∧ s.path = none ∧ s.regular = false ∧ v ≠ [] ∧ v.any isBadPseudoByte = false ∧
+        s' = { s with path := some v })
+    ∨ (eqNoCase k sAuthority = true ∧ s.authority = none ∧ s.regular = false ∧ v ≠ [] ∧
+        v.any isBadPseudoByte = false ∧ s' = { s with authority := some v })
+    ∨ (NotPseudo k ∧ eqNoCase k sCookie = true ∧ cookieLoop lim (splitBy 59 v) true { s with regular := true } = .ok s')
+    ∨ (NotPseudo k ∧ eqNoCase k sCookie = false ∧ eqNoCase k sHost = true ∧
+        (s' = { s with regular := true, hostConflict := true } ∨ s' = { s with regular := true, hostValue := some v }))
+    ∨ (NotPseudo k ∧ eqNoCase k sCookie = false ∧ eqNoCase k sHost = false ∧
+        writeRegular lim { s with regular := true } k v = .ok s') := by
+  unfold perHeader at h
+  split at h
+  · next h1 =>
+    split at h; · cases h
+    next h2 =>
+    obtain ⟨x, hx, hs⟩ := map_ok h
+    obtain ⟨a, b, c, d, e⟩ := storePseudo_ok hx
+    subst c
+    exact .inl ⟨h1, a, b, d, by simpa using h2, hs.symm⟩
+  · next h1 =>
+    split at h
+    · next h2 =>
+      split at h; · cases h
+      obtain ⟨x, hx, hs⟩ := map_ok h
+      obtain ⟨a, b, c, d, e⟩ := storePseudo_ok hx
+      subst c
+      exact .inr (.inl ⟨h2, a, b, hs.symm⟩)
+    · next h2 =>
+      split at h
+      · next h3 =>
+        split at h; · cases h
+        obtain ⟨x, hx, hs⟩ := map_ok h
+        obtain ⟨a, b, c, d, e⟩ := storePseudo_ok hx
+        subst c
+        exact .inr (.inr (.inl ⟨h3, a, b, d, e, hs.symm⟩))
+      · next h3 =>
+        split at h
+        · next h4 =>
+          obtain ⟨x, hx, hs⟩ := map_ok h
+          obtain ⟨a, b, c, d, e⟩ := storePseudo_ok hx
+          subst c
+          exact .inr (.inr (.inr (.inl ⟨h4, a, b, d, e, hs.symm⟩)))
+        · next h4 =>
+          split at h; · cases h
+          next h5 =>
+          have np : NotPseudo k := ⟨by simpa using h1, by simpa using h2, by simpa using h3, by simpa using h4, by simpa using h5⟩
+          split at h
+          · next h6 => exact .inr (.inr (.inr (.inr (.inl ⟨np, h6, h⟩))))
+          · next h6 =>
+            split at h
+            · next h7 =>
+              split at h
+              · cases h; exact .inr (.inr (.inr (.inr (.inr (.inl ⟨np, by simpa using h6, h7, .inl rfl⟩)))))
+              · cases h; exact .inr (.inr (.inr (.inr (.inr (.inl ⟨np, by simpa using h6, h7, .inr rfl⟩)))))
+            · next h7 =>
+              exact .inr (.inr (.inr (.inr (.inr (.inr ⟨np, by simpa using h6, by simpa using h7, h⟩)))))
+
+theorem perHeader_ext {lim : Limits} {s s' : VS} {k v : Bytes} (h : perHeader lim s k v = .ok s') : Ext s s' := by
+  rcases perHeader_cases h with ⟨_, a, b, _, _, rfl⟩ | ⟨_, a, b, rfl⟩ | ⟨_, a, b, _, _, rfl⟩ | ⟨_, a, b, _, _, rfl⟩ |
+    ⟨_, _, hc⟩ | ⟨_, _, _, rfl | rfl⟩ | ⟨_, _, _, hw⟩
+  · exact ⟨by simp, by simp [a], by simp, by simp, by simp, by simp, by simp⟩
+  · exact ⟨by simp, by simp, by simp, by simp, by simp [a], by simp, by simp⟩
+  · exact ⟨by simp, by simp, by simp, by simp [a], by simp, by simp, by simp⟩
+  · exact ⟨by simp, by simp, by simp [a], by simp, by simp, by simp, by simp⟩
+  · obtain ⟨c1, c2, c3, c4, c5, c6, c7, c8⟩ := cookieLoop_core _ _ _ _ _ hc
+    exact ⟨by simp [c5], by simp [c1], by simp [c2], by simp [c3], by simp [c4], by simp [c6], by simp [c8]⟩
+  · exact ⟨by simp, by simp, by simp, by simp, by simp, by simp, by simp⟩
+  · exact ⟨by simp, by simp, by simp, by simp, by simp, by simp, by simp⟩
+  · obtain ⟨_, _, w1, w2, w3, w4, w5, _, w7, _, w9⟩ := writeRegular_ok hw
+    refine ⟨by simp [w5], by simp [w1], by simp [w2], by simp [w3], by simp [w4], ?_, by simp [w7]⟩
+    intro n hn
+    rcases w9 with ⟨_, hb⟩ | ⟨_, _, _, hb, hm⟩
+    · simpa [hb] using hn
+    · have := hm n (by simpa using hn); simp [hb, this]
+
+theorem stepHeader_ok {lim : Limits} {s s' : VS} {kv : Bytes × Bytes} (h : stepHeader lim s kv = .ok s') :
+    classifyHeader kv.1 kv.2 = none ∧
+    perHeader lim { s with decoded := s.decoded + kv.1.length + kv.2.length + Consts.hdrFieldSizeOverhead,
+                           count := s.count + 1 } kv.1 kv.2 = .ok s' := by
+  unfold stepHeader at h
+  simp only at h
+  split at h; · cases h
+  split at h; · cases h
+  split at h
+  · cases h
+  · next hc => exact ⟨hc, h⟩
+
+theorem stepHeader_ext {lim : Limits} {s s' : VS} {kv : Bytes × Bytes} (h : stepHeader lim s kv = .ok s') : Ext s s' := by
+  have := perHeader_ext (stepHeader_ok h).2
+  exact ⟨this.regular, this.method, this.authority, this.path, this.scheme, this.body, this.hostConflict⟩
+
+theorem foldHeaders_ext {lim : Limits} (hl : List (Bytes × Bytes)) : ∀ {s s' : VS}, foldHeaders lim hl s = .ok s' → Ext s s' := by
+  induction hl with
+  | nil => intro s s' h; simp [foldHeaders] at h; subst h; exact Ext.refl _
+  | cons kv tl ih =>
+    intro s s' h
+    unfold foldHeaders at h
+    cases hs : stepHeader lim s kv with
+    | error r => simp [hs] at h
+    | ok s1 => simp only [hs] at h; exact (stepHeader_ext hs).trans (ih h)
+
+/-- fold over `pre ++ x :: rest`: either an error, or the state reached before `x` -/
+theorem foldHeaders_append {lim : Limits} (pre rest : List (Bytes × Bytes)) (s : VS) :
+    (∃ e, foldHeaders lim (pre ++ rest) s = .error e) ∨
+    (∃ s1, foldHeaders lim pre s = .ok s1 ∧ foldHeaders lim (pre ++ rest) s = foldHeaders lim rest s1) := by
+  induction pre generalizing s with
+  | nil => exact .inr ⟨s, rfl, rfl⟩
+  | cons kv tl ih =>
+    simp only [List.cons_append, foldHeaders]
+    cases hs : stepHeader lim s kv with
+    | error r => exact .inl ⟨r, rfl⟩
+    | ok s1 => simpa using ih s1
+
+-- ===================================== context-dependent rejected shapes ==
+
+theorem eqNoCase_excl {k a b : Bytes} (ha : eqNoCase k a = true) (hb : eqNoCase k b = true) : lower a = lower b := by
+  simp only [eqNoCase, beq_iff_eq] at ha hb
+  rw [← ha, ← hb]
+
+theorem foldHeaders_pres {lim : Limits} (P : VS → Prop)
+    (hP : ∀ s s' kv, P s → stepHeader lim s kv = .ok s' → P s') (hl : List (Bytes × Bytes)) :
+    ∀ {s s' : VS}, P s → foldHeaders lim hl s = .ok s' → P s' := by
+  induction hl with
+  | nil => intro s s' hp h; simp [foldHeaders] at h; subst h; exact hp
+  | cons kv tl ih =>
+    intro s s' hp h
+    simp only [foldHeaders] at h
+    cases hs : stepHeader lim s kv with
+    | error r => simp [hs] at h
+    | ok s1 => simp only [hs] at h; exact ih (hP s s1 kv hp hs) h
+
+/-- `x` establishes `P`, every later step keeps it, `y` cannot be taken under `P` -/
+theorem foldHeaders_two {lim : Limits} (P : VS → Prop) (x y : Bytes × Bytes)
+    (hx : ∀ s s', stepHeader lim s x = .ok s' → P s')
+    (hP : ∀ s s' kv, P s → stepHeader lim s kv = .ok s' → P s')
+    (hy : ∀ s s', P s → stepHeader lim s y = .ok s' → False)
+    (pre mid post : List (Bytes × Bytes)) (s : VS) :
+    ∃ e, foldHeaders lim (pre ++ x :: mid ++ y :: post) s = .error e := by
+  have e : pre ++ x :: mid ++ y :: post = pre ++ (x :: (mid ++ y :: post)) := by simp
+  rw [e]
+  rcases foldHeaders_append pre (x :: (mid ++ y :: post)) s with he | ⟨s1, _, h1⟩
+  · exact he
+  · rw [h1]
+    simp only [foldHeaders]
+    cases hs : stepHeader lim s1 x with
+    | error r => exact ⟨r, rfl⟩
+    | ok s2 =>
+      simp only
+      have p2 := hx s1 s2 hs
+      rcases foldHeaders_append mid (y :: post) s2 with he | ⟨s3, h3, h4⟩
+      · exact he
+      · rw [h4]
+        have p3 := foldHeaders_pres P hP mid p2 h3
+        simp only [foldHeaders]
+        cases hs3 : stepHeader lim s3 y with
+        | error r => exact ⟨r, rfl⟩
+        | ok s4 => exact (hy s3 s4 p3 hs3).elim
+
+theorem cl_not_others {k : Bytes} (hk : eqNoCase k sContentLength = true) :
+    eqNoCase k sMethod = false ∧ eqNoCase k sScheme = false ∧ eqNoCase k sPath = false ∧
+    eqNoCase k sAuthority = false ∧ eqNoCase k sCookie = false ∧ eqNoCase k sHost = false := by
+  refine ⟨?_, ?_, ?_, ?_, ?_, ?_⟩ <;> (rw [eqNoCase_trans_const hk]; decide)
+
+/-- a successful step on a `content-length` field went through `write_regular_header` -/
+theorem step_cl {lim : Limits} {s s' : VS} {k v : Bytes} (hk : eqNoCase k sContentLength = true)
+    (h : stepHeader lim s (k, v) = .ok s') :
+    s'.body = .length (decVal v) ∧ v ≠ [] ∧ v.all isDigit = true ∧ (∀ m, s.body = .length m → m = decVal v) ∧
+    s'.fields = s.fields ++ [.hdr k v] ∧ s'.jar = s.jar := by
+  obtain ⟨c1, c2, c3, c4, c5, c6⟩ := cl_not_others hk
+  rcases perHeader_cases (stepHeader_ok h).2 with ⟨a, _⟩ | ⟨a, _⟩ | ⟨a, _⟩ | ⟨a, _⟩ | ⟨_, a, _⟩ | ⟨_, _, a, _⟩ | ⟨_, _, _, hw⟩
+  · simp [c1] at a
+  · simp [c2] at a
+  · simp [c3] at a
+  · simp [c4] at a
+  · simp [c5] at a
+  · simp [c6] at a
+  · obtain ⟨w1, w2, _, _, _, _, _, _, _, _, w9⟩ := writeRegular_ok hw
+    rcases w9 with ⟨hn, _⟩ | ⟨_, a, b, c, d⟩
+    · simp [hk] at hn
+    · exact ⟨c, a, b, fun m hm => d m (by simpa using hm), by simpa using w1, by simpa using w2⟩
+
+theorem validate_rejects_cl_conflict (lim : Limits) (es : Bool) (pre mid post : List (Bytes × Bytes))
+    (k1 k2 v1 v2 : Bytes) (h1 : eqNoCase k1 sContentLength = true) (h2 : eqNoCase k2 sContentLength = true)
+    (hne : decVal v1 ≠ decVal v2) :
+    ∃ e, validateRequest lim es (pre ++ (k1, v1) :: mid ++ (k2, v2) :: post) = .error e := by
+  apply validate_error_of_fold
+  apply foldHeaders_two (fun s => s.body = .length (decVal v1))
+  · intro s s' h; exact (step_cl h1 h).1
+  · intro s s' kv hp h; exact (stepHeader_ext h).body _ hp
+  · intro s s' hp h; exact hne ((step_cl h2 h).2.2.2.1 _ hp)
+
+theorem step_regular {lim : Limits} {s s' : VS} {k v : Bytes} (hk : k.head? ≠ some 58)
+    (h : stepHeader lim s (k, v) = .ok s') : s'.regular = true := by
+  have hh : ∀ name, name.head? = some 58 → lower name = name → eqNoCase k name = true → False :=
+    fun name hn hl he => hk (head_of_eqNoCase he hn hl)
+  rcases perHeader_cases (stepHeader_ok h).2 with ⟨a, _⟩ | ⟨a, _⟩ | ⟨a, _⟩ | ⟨a, _⟩ | ⟨_, _, hc⟩ | ⟨_, _, _, rfl | rfl⟩ | ⟨_, _, _, hw⟩
+  · exact (hh sMethod (by decide) (by decide) a).elim
+  · exact (hh sScheme (by decide) (by decide) a).elim
+  · exact (hh sPath (by decide) (by decide) a).elim
+  · exact (hh sAuthority (by decide) (by decide) a).elim
+  · have := (cookieLoop_core _ _ _ _ _ hc).2.2.2.2.1; simpa using this
+  · rfl
+  · rfl
+  · have := (writeRegular_ok hw).2.2.2.2.2.2.1; simpa using this
+
+theorem step_pseudo_after_regular {lim : Limits} {s s' : VS} {k v : Bytes} (hk : k.head? = some 58)
+    (hr : s.regular = true) (h : stepHeader lim s (k, v) = .ok s') : False := by
+  rcases perHeader_cases (stepHeader_ok h).2 with ⟨_, _, b, _⟩ | ⟨_, _, b, _⟩ | ⟨_, _, b, _⟩ | ⟨_, _, b, _⟩ |
+    ⟨np, _⟩ | ⟨np, _⟩ | ⟨np, _⟩
+  all_goals first
+    | (simp [hr] at b)
+    | (have := np.2.2.2.2; simp [hk] at this)
+
+theorem validate_rejects_pseudo_after_regular (lim : Limits) (es : Bool) (pre mid post : List (Bytes × Bytes))
+    (k v pk pv : Bytes) (hk : k.head? ≠ some 58) (hp : pk.head? = some 58) :
+    ∃ e, validateRequest lim es (pre ++ (k, v) :: mid ++ (pk, pv) :: post) = .error e := by
+  apply validate_error_of_fold
+  apply foldHeaders_two (fun s => s.regular = true)
+  · intro s s' h; exact step_regular hk h
+  · intro s s' kv hp h; exact (stepHeader_ext h).regular hp
+  · intro s s' hr h; exact step_pseudo_after_regular hp hr h
+
+def slot (name : Bytes) (s : VS) : Option Bytes :=
+  if name = sMethod then s.method else if name = sScheme then s.scheme
+  else if name = sPath then s.path else s.authority
+
+theorem validate_rejects_duplicate_pseudo (lim : Limits) (es : Bool) (pre mid post : List (Bytes × Bytes))
+    (k1 k2 v1 v2 name : Bytes) (hn : name ∈ [sMethod, sScheme, sPath, sAuthority])
+    (h1 : eqNoCase k1 name = true) (h2 : eqNoCase k2 name = true) :
+    ∃ e, validateRequest lim es (pre ++ (k1, v1) :: mid ++ (k2, v2) :: post) = .error e := by
+  apply validate_error_of_fold
+  have dM : lower sMethod ≠ lower sScheme ∧ lower sMethod ≠ lower sPath ∧ lower sMethod ≠ lower sAuthority ∧
+      lower sScheme ≠ lower sPath ∧ lower sScheme ≠ lower sAuthority ∧ lower sPath ≠ lower sAuthority := by decide
+  have hhead : ∀ k, eqNoCase k name = true → (k.head? == some 58) = true := by
+    intro k hk
+    have : name.head? = some 58 ∧ lower name = name := by
+      simp only [List.mem_cons, List.mem_nil_iff, or_false] at hn
+      rcases hn with rfl | rfl | rfl | rfl <;> decide
+    simp [head_of_eqNoCase hk this.1 this.2]
+  apply foldHeaders_two (fun s => (slot name s).isSome = true)
+  · intro s s' h
+    have hh := hhead k1 h1
+    simp only [List.mem_cons, List.mem_nil_iff, or_false] at hn
+    rcases perHeader_cases (stepHeader_ok h).2 with ⟨a, _, _, _, _, rfl⟩ | ⟨a, _, _, rfl⟩ | ⟨a, _, _, _, _, rfl⟩ | ⟨a, _, _, _, _, rfl⟩ |
+      ⟨np, _⟩ | ⟨np, _⟩ | ⟨np, _⟩
+    · rcases hn with rfl | rfl | rfl | rfl
+      · simp [slot]
+      · exact (dM.1 (eqNoCase_excl a h1)).elim
+      · exact (dM.2.1 (eqNoCase_excl a h1)).elim
+      · exact (dM.2.2.1 (eqNoCase_excl a h1)).elim
+    · rcases hn with rfl | rfl | rfl | rfl
+      · exact (dM.1 (eqNoCase_excl h1 a)).elim
+      · simp [slot, sScheme, sMethod]
+      · exact (dM.2.2.2.1 (eqNoCase_excl a h1)).elim
+      · exact (dM.2.2.2.2.1 (eqNoCase_excl a h1)).elim
+    · rcases hn with rfl | rfl | rfl | rfl
+      · exact (dM.2.1 (eqNoCase_excl h1 a)).elim
+      · exact (dM.2.2.2.1 (eqNoCase_excl h1 a)).elim
+      · simp [slot, sScheme, sMethod, sPath]
+      · exact (dM.2.2.2.2.2 (eqNoCase_excl a h1)).elim
+    · rcases hn with rfl | rfl | rfl | rfl
+      · exact (dM.2.2.1 (eqNoCase_excl h1 a)).elim
+      · exact (dM.2.2.2.2.1 (eqNoCase_excl h1 a)).elim
+      · exact (dM.2.2.2.2.2 (eqNoCase_excl h1 a)).elim
+      · simp [slot, sScheme, sMethod, sPath, sAuthority]
+    · have := np.2.2.2.2; simp [hh] at this
+    · have := np.2.2.2.2; simp [hh] at this
+    · have := np.2.2.2.2; simp [hh] at this
+  · intro s s' kv hp h
+    have e := stepHeader_ext h
+    simp only [slot] at hp ⊢
+    split at hp
+    · next hn' => simp only [hn', ↓reduceIte]; cases hm : s.method with
+      | none => simp [hm] at hp
+      | some x => simp [e.method x hm]
+    · next hn1 =>
+      simp only [hn1, ↓reduceIte]
+      split at hp
+      · next hn' => simp only [hn', ↓reduceIte]; cases hm : s.scheme with
+        | none => simp [hm] at hp
+        | some x => simp [e.scheme x hm]
+      · next hn2 =>
+        simp only [hn2, ↓reduceIte]
+        split at hp
+        · next hn' => simp only [hn', ↓reduceIte]; cases hm : s.path with
+          | none => simp [hm] at hp
+          | some x => simp [e.path x hm]
+        · next hn3 =>
+          simp only [hn3, ↓reduceIte]
+          cases hm : s.authority with
+          | none => simp [hm] at hp
+          | some x => simp [e.authority x hm]
+  · intro s s' hp h
+    have hh := hhead k2 h2
+    simp only [List.mem_cons, List.mem_nil_iff, or_false] at hn
+    rcases perHeader_cases (stepHeader_ok h).2 with ⟨a, b, _⟩ | ⟨a, b, _⟩ | ⟨a, b, _⟩ | ⟨a, b, _⟩ |
+      ⟨np, _⟩ | ⟨np, _⟩ | ⟨np, _⟩
+    · rcases hn with rfl | rfl | rfl | rfl
+      · simp [slot] at hp; simp at b; simp [b] at hp
+      · exact (dM.1 (eqNoCase_excl a h2)).elim
+      · exact (dM.2.1 (eqNoCase_excl a h2)).elim
+      · exact (dM.2.2.1 (eqNoCase_excl a h2)).elim
+    · rcases hn with rfl | rfl | rfl | rfl
+      · exact (dM.1 (eqNoCase_excl h2 a)).elim
+      · simp [slot, sScheme, sMethod] at hp; simp at b; simp [b] at hp
+      · exact (dM.2.2.2.1 (eqNoCase_excl a h2)).elim
+      · exact (dM.2.2.2.2.1 (eqNoCase_excl a h2)).elim
+    · rcases hn with rfl | rfl | rfl | rfl
+      · exact (dM.2.1 (eqNoCase_excl h2 a)).elim
+      · exact (dM.2.2.2.1 (eqNoCase_excl h2 a)).elim
+      · simp [slot, sScheme, sMethod, sPath] at hp; simp at b; simp [b] at hp
+      · exact (dM.2.2.2.2.2 (eqNoCase_excl a h2)).elim
+    · rcases hn with rfl | rfl | rfl | rfl
+      · exact (dM.2.2.1 (eqNoCase_excl h2 a)).elim
+      · exact (dM.2.2.2.2.1 (eqNoCase_excl h2 a)).elim
+      · exact (dM.2.2.2.2.2 (eqNoCase_excl h2 a)).elim
+      · simp [slot, sScheme, sMethod, sPath, sAuthority] at hp; simp at b; simp [b] at hp
+    · have := np.2.2.2.2; simp [hh] at this
+    · have := np.2.2.2.2; simp [hh] at this
+    · have := np.2.2.2.2; simp [hh] at this
+
+-- ================================================== accepted ⇒ clean bytes ==
+
+def NameOK (k : Bytes) : Prop := k ≠ [] ∧ ∀ b ∈ k, isTchar b = true
+def ValueOK (v : Bytes) : Prop := ∀ b ∈ v, isBadValueByte b = false
+instance (v : Bytes) : Decidable (ValueOK v) := by unfold ValueOK; infer_instance
+
+/-- nothing forbidden is emitted -/
+structure Clean (r : Req) : Prop where
+  method_ne : r.method ≠ []
+  method_tok : ∀ b ∈ r.method, isTchar b = true
+  target_ne : r.target ≠ []
+  target_ok : ∀ b ∈ r.target, isBadPseudoByte b = false
+  host_ne : r.host ≠ []
+  host_ok : ∀ b ∈ r.host, isBadPseudoByte b = false
+  names : ∀ kv ∈ emitted r, NameOK kv.1
+  values : ∀ kv ∈ emitted r, ValueOK kv.2
+  client_lower : ∀ k v, Field.hdr k v ∈ r.fields →
+    (∀ b ∈ k, isUpper b = false) ∨ (k = cContentLength ∧ v = [48]) ∨ (k = cTransferEncoding ∧ v = sChunked)
+
+theorem classifyValue_none {v : Bytes} (h : classifyValue v = none) : ValueOK v := by
+  intro b hb
+  cases hbad : isBadValueByte b with
+  | false => rfl
+  | true => exact (classifyValue_bad v (List.any_eq_true.mpr ⟨b, hb, hbad⟩) h).elim
+
+theorem classifyHeader_none {k v : Bytes} (h : classifyHeader k v = none) :
+    k ≠ [] ∧ (k.head? = some 58 ∨ hasInvalidNameByte k = false) ∧ isConnectionSpecific k = false ∧ ValueOK v := by
+  unfold classifyHeader at h
+  split at h; · cases h
+  next h1 =>
+  split at h; · cases h
+  next h2 =>
+  split at h; · cases h
+  next h3 =>
+  split at h; · cases h
+  refine ⟨by intro e; simp [e] at h1, ?_, by simpa using h3, classifyValue_none h⟩
+  simp only [Bool.and_eq_true, bne_iff_ne, ne_eq, not_and, Bool.not_eq_true] at h2
+  by_cases hh : k.head? = some 58
+  · exact .inl hh
+  · exact .inr (h2 hh)
+
+theorem name_of_valid {k : Bytes} (hne : k ≠ []) (h : hasInvalidNameByte k = false) :
+    NameOK k ∧ ∀ b ∈ k, isUpper b = false := by
+  simp only [hasInvalidNameByte, List.any_eq_false, Bool.or_eq_true, Bool.not_eq_true', not_or,
+    Bool.not_eq_true, Bool.not_eq_false] at h
+  exact ⟨⟨hne, fun b hb => (h b hb).2⟩, fun b hb => (h b hb).1⟩
+
+/-- what the cookie loop adds: at most the `Cookies` marker, and clean crumbs -/
+theorem cookieLoop_adds (lim : Limits) (segs : List Bytes) (first : Bool) (s s' : VS)
+    (h : cookieLoop lim segs first s = .ok s') :
+    (∃ extra, s'.fields = s.fields ++ extra ∧ ∀ f ∈ extra, f = Field.cookies) ∧
+    ∃ cs, s'.jar = s.jar ++ cs ∧ ∀ c ∈ cs, ValueOK c.key ∧ ValueOK c.val ∧ c.elided = false := by
+  induction segs generalizing first s with
+  | nil => simp [cookieLoop] at h; subst h; exact ⟨⟨[], by simp, by simp⟩, [], by simp, by simp⟩
+  | cons seg rest ih =>
+    unfold cookieLoop at h
+    cases first <;> simp only [↓reduceIte, Bool.false_eq_true] at h
+    all_goals
+      split at h
+      · exact ih _ _ h
+      · split at h
+        · cases h
+        · next hcl =>
+          have hk : ValueOK (splitCrumb (trimOws seg)).1 ∧ ValueOK (splitCrumb (trimOws seg)).2 := by
+            cases h1 : classifyValue (splitCrumb (trimOws seg)).1 with
+            | some r => simp [h1, Option.orElse] at hcl
+            | none =>
+              cases h2 : classifyValue (splitCrumb (trimOws seg)).2 with
+              | some r => simp [h1, h2, Option.orElse] at hcl
+              | none => exact ⟨classifyValue_none h1, classifyValue_none h2⟩
+          split at h
+          · cases h
+          · obtain ⟨hf, cs, hj, hc⟩ := ih _ _ h
+            refine ⟨?_, { key := (splitCrumb (trimOws seg)).1, val := (splitCrumb (trimOws seg)).2 } :: cs, ?_, ?_⟩
+            · obtain ⟨extra, he, hx⟩ := hf
+              by_cases hca : s.cookiesAdded = true
+              · exact ⟨extra, by simpa [hca] using he, hx⟩
+              · refine ⟨Field.cookies :: extra, by simpa [hca] using he, ?_⟩
+                intro f hf'
+                rcases List.mem_cons.mp hf' with rfl | hf''
+                · rfl
+                · exact hx f hf''
+            · simpa using hj
+            · intro c hc'
+              rcases List.mem_cons.mp hc' with rfl | hc''
+              · exact ⟨hk.1, hk.2, rfl⟩
+              · exact hc c hc''
+
+structure VClean (s : VS) : Prop where
+  fields : ∀ k v, Field.hdr k v ∈ s.fields →
+    NameOK k ∧ (∀ b ∈ k, isUpper b = false) ∧ ValueOK v ∧ eqNoCase k sHost = false ∧ eqNoCase k sTransferEncoding = false
+  jar : ∀ c ∈ s.jar, ValueOK c.key ∧ ValueOK c.val ∧ c.elided = false
+  method : ∀ m, s.method = some m → m ≠ [] ∧ ∀ b ∈ m, isTchar b = true
+  path : ∀ p, s.path = some p → p ≠ [] ∧ ∀ b ∈ p, isBadPseudoByte b = false
+  authority : ∀ a, s.authority = some a → a ≠ [] ∧ ∀ b ∈ a, isBadPseudoByte b = false
+
+theorem VClean.init : VClean {} := ⟨by simp, by simp, by simp, by simp, by simp⟩
+
+theorem te_of_not_connSpecific {k : Bytes} (h : isConnectionSpecific k = false) : eqNoCase k sTransferEncoding = false := by
+  simp only [isConnectionSpecific, List.any_eq_false] at h
+  have hm : sTransferEncoding ∈ Consts.hdrConnectionSpecific := by decide
+  simpa using h _ hm
+
+theorem VClean.congr {s s' : VS} (h : VClean s) (hf : s'.fields = s.fields) (hj : s'.jar = s.jar)
+    (hm : s'.method = s.method) (hp : s'.path = s.path) (ha : s'.authority = s.authority) : VClean s' :=
+  ⟨by rw [hf]; exact h.fields, by rw [hj]; exact h.jar, by rw [hm]; exact h.method, by rw [hp]; exact h.path,
+   by rw [ha]; exact h.authority⟩
+
+theorem step_clean {lim : Limits} {s s' : VS} {kv : Bytes × Bytes} (hc : VClean s)
+    (h : stepHeader lim s kv = .ok s') : VClean s' := by
+  obtain ⟨hcl, hp⟩ := stepHeader_ok h
+  obtain ⟨kne, kname, kconn, vok⟩ := classifyHeader_none hcl
+  have hc0 : VClean { s with decoded := s.decoded + kv.1.length + kv.2.length + Consts.hdrFieldSizeOverhead,
+                              count := s.count + 1 } := hc.congr rfl rfl rfl rfl rfl
+  rcases perHeader_cases hp with ⟨_, _, _, vne, vt, rfl⟩ | ⟨_, _, _, rfl⟩ | ⟨_, _, _, vne, vb, rfl⟩ | ⟨_, _, _, vne, vb, rfl⟩ |
+    ⟨np, _, hloop⟩ | ⟨np, _, _, rfl | rfl⟩ | ⟨np, hnc, hnh, hw⟩
+  · exact ⟨hc.fields, hc.jar, by intro m hm; simp at hm; subst hm; exact ⟨vne, by simpa using vt⟩, hc.path, hc.authority⟩
+  · exact ⟨hc.fields, hc.jar, hc.method, hc.path, hc.authority⟩
+  · exact ⟨hc.fields, hc.jar, hc.method, by intro m hm; simp at hm; subst hm; exact ⟨vne, by simpa using vb⟩, hc.authority⟩
+  · exact ⟨hc.fields, hc.jar, hc.method, hc.path, by intro m hm; simp at hm; subst hm; exact ⟨vne, by simpa using vb⟩⟩
+  · obtain ⟨⟨extra, he, hx⟩, cs, hj, hcs⟩ := cookieLoop_adds _ _ _ _ _ hloop
+    obtain ⟨c1, c2, c3, _⟩ := cookieLoop_core _ _ _ _ _ hloop
+    refine ⟨?_, ?_, by rw [c1]; exact hc.method, by rw [c3]; exact hc.path, by rw [c2]; exact hc.authority⟩
+    · intro k v hm
+      rw [he] at hm
+      rcases List.mem_append.mp hm with hm | hm
+      · exact hc.fields k v hm
+      · have := hx _ hm; cases this
+    · intro c hm
+      rw [hj] at hm
+      rcases List.mem_append.mp hm with hm | hm
+      · exact hc.jar c hm
+      · exact hcs c hm
+  · exact ⟨hc.fields, hc.jar, hc.method, hc.path, hc.authority⟩
+  · exact ⟨hc.fields, hc.jar, hc.method, hc.path, hc.authority⟩
+  · obtain ⟨w1, w2, w3, w4, w5, _⟩ := writeRegular_ok hw
+    refine ⟨?_, by rw [w2]; exact hc.jar, by rw [w3]; exact hc.method, by rw [w5]; exact hc.path, by rw [w4]; exact hc.authority⟩
+    intro k v hm
+    rw [w1] at hm
+    rcases List.mem_append.mp hm with hm | hm
+    · exact hc.fields k v hm
+    · simp only [List.mem_cons, Field.hdr.injEq, List.mem_nil_iff, or_false] at hm
+      obtain ⟨rfl, rfl⟩ := hm
+      have hhead : kv.1.head? ≠ some 58 := by
+        intro e; have := np.2.2.2.2; simp [e] at this
+      have hv : hasInvalidNameByte kv.1 = false := by
+        rcases kname with e | e
+        · exact (hhead e).elim
+        · exact e
+      obtain ⟨n1, n2⟩ := name_of_valid kne hv
+      exact ⟨n1, n2, vok, hnh, te_of_not_connSpecific kconn⟩
+
+theorem fold_clean {lim : Limits} (hl : List (Bytes × Bytes)) {s s' : VS} (hc : VClean s)
+    (h : foldHeaders lim hl s = .ok s') : VClean s' :=
+  foldHeaders_pres VClean (fun _ _ _ hp hs => step_clean hp hs) hl hc h
+
+theorem pseudo_bad_of_value_bad : ∀ b, isBadValueByte b = true → isBadPseudoByte b = true := by
+  intro b h
+  simp only [isBadValueByte, isCtlValueByte, Bool.or_eq_true, beq_iff_eq, List.contains_eq_mem,
+    decide_eq_true_eq] at h
+  have hall : ∀ x ∈ (0 :: (Consts.hdrValueCrLf ++ Consts.hdrValueCtlImmediate)), isBadPseudoByte x = true := by decide
+  apply hall
+  rcases h with h | h | h
+  · simp [h]
+  · simp [h]
+  · simp [h]
+
+theorem valueOK_of_pseudo {v : Bytes} (h : ∀ b ∈ v, isBadPseudoByte b = false) : ValueOK v := by
+  intro b hb
+  cases hbad : isBadValueByte b with
+  | false => rfl
+  | true => have := pseudo_bad_of_value_bad b hbad; simp [h b hb] at this
+
+theorem joinCrumbs_ok (cs : List Crumb) (h : ∀ c ∈ cs, ValueOK c.key ∧ ValueOK c.val) : ValueOK (joinCrumbs cs) := by
+  induction cs with
+  | nil => intro b hb; simp [joinCrumbs] at hb
+  | cons c tl ih =>
+    have hc := h c (by simp)
+    have htl : ∀ x ∈ tl, ValueOK x.key ∧ ValueOK x.val := fun x hx => h x (by simp [hx])
+    intro b hb
+    cases tl with
+    | nil =>
+      simp only [joinCrumbs, List.mem_append, List.mem_cons, List.mem_nil_iff, or_false] at hb
+      rcases hb with (hb | hb) | hb
+      · exact hc.1 b hb
+      · subst hb; decide
+      · exact hc.2 b hb
+    | cons d tl' =>
+      simp only [joinCrumbs, sSemiSp, List.mem_append, List.mem_cons, List.mem_nil_iff, or_false] at hb
+      rcases hb with (((hb | hb) | hb) | hb) | hb
+      · exact hc.1 b hb
+      · subst hb; decide
+      · exact hc.2 b hb
+      · rcases hb with hb | hb <;> (subst hb; decide)
+      · exact ih htl b hb
+
+theorem emitFields_mem (fs : List Field) (jar : List Crumb) (kv : Bytes × Bytes) (h : kv ∈ emitFields fs jar) :
+    (∃ k v, Field.hdr k v ∈ fs ∧ kv = (k, v)) ∨ (kv.1 = cCookie ∧ ∃ cs, (∀ c ∈ cs, c ∈ jar) ∧ kv.2 = joinCrumbs cs) := by
+  induction fs generalizing jar with
+  | nil => simp [emitFields] at h
+  | cons f tl ih =>
+    cases f with
+    | hdr k v =>
+      simp only [emitFields, List.mem_cons] at h
+      rcases h with rfl | h
+      · exact .inl ⟨k, v, by simp, rfl⟩
+      · rcases ih jar h with ⟨k', v', hm, e⟩ | hr
+        · exact .inl ⟨k', v', by simp [hm], e⟩
+        · exact .inr hr
+    | cookies =>
+      simp only [emitFields] at h
+      split at h
+      · rcases ih jar h with ⟨k', v', hm, e⟩ | hr
+        · exact .inl ⟨k', v', by simp [hm], e⟩
+        · exact .inr hr
+      · simp only [List.mem_cons] at h
+        rcases h with rfl | h
+        · exact .inr ⟨rfl, liveCrumbs jar, fun c hc => (List.mem_filter.mp hc).1, rfl⟩
+        · rcases ih [] h with ⟨k', v', hm, e⟩ | ⟨e1, cs, hcs, e2⟩
+          · exact .inl ⟨k', v', by simp [hm], e⟩
+          · exact .inr ⟨e1, cs, fun c hc => by have := hcs c hc; simp at this, e2⟩
+
+theorem finishDecode_ok {s : VS} {r : Req} (h : finishDecode s = .ok r) :
+    s.method = some r.method ∧ s.path = some r.target ∧ s.authority = some r.host ∧
+    r.fields = s.fields ∧ r.jar = s.jar ∧ r.body = s.body := by
+  unfold finishDecode at h
+  cases hm : s.method <;> cases ha : s.authority <;> cases hp : s.path <;> cases hsc : s.scheme <;>
+    simp only [hm, ha, hp, hsc] at h <;> (try (split at h <;> cases h))
+  split at h; · cases h
+  split at h; · cases h
+  split at h
+  · split at h
+    · cases h; exact ⟨rfl, rfl, rfl, rfl, rfl, rfl⟩
+    · cases h
+  · cases h; exact ⟨rfl, rfl, rfl, rfl, rfl, rfl⟩
+
+theorem finishFraming_ok {es : Bool} {r r' : Req} (h : finishFraming es r = .ok r') :
+    r'.method = r.method ∧ r'.target = r.target ∧ r'.host = r.host ∧ r'.jar = r.jar ∧
+    ((r'.fields = r.fields ∧ r'.body = r.body ∧ (r.body = .chunked ∨ ∃ n, r.body = .length n ∧ (es = true → n = 0)))
+     ∨ (es = true ∧ r.body = .empty ∧ r'.body = .length 0 ∧ r'.fields = r.fields ++ [.hdr cContentLength [48]])
+     ∨ (es = false ∧ r.body = .empty ∧ r'.body = .chunked ∧ r'.fields = r.fields ++ [.hdr cTransferEncoding sChunked])) := by
+  unfold finishFraming at h
+  split at h
+  · next hes =>
+    split at h
+    · next n hb =>
+      split at h
+      · cases h
+      · next hn => cases h; exact ⟨rfl, rfl, rfl, rfl, .inl ⟨rfl, rfl, .inr ⟨n, hb, fun _ => by omega⟩⟩⟩
+    · next hb => cases h; exact ⟨rfl, rfl, rfl, rfl, .inr (.inl ⟨hes, hb, rfl, rfl⟩)⟩
+    · next hb => cases h; exact ⟨rfl, rfl, rfl, rfl, .inl ⟨rfl, rfl, .inl hb⟩⟩
+  · next hes =>
+    have hes' : es = false := by simpa using hes
+    split at h
+    · next hb => cases h; exact ⟨rfl, rfl, rfl, rfl, .inr (.inr ⟨hes', hb, rfl, rfl⟩)⟩
+    · next hnb =>
+      cases h
+      refine ⟨rfl, rfl, rfl, rfl, .inl ⟨rfl, rfl, ?_⟩⟩
+      cases hb : r.body with
+      | empty => exact (hnb hb).elim
+      | chunked => exact .inl rfl
+      | length n => exact .inr ⟨n, rfl, fun e => by simp [hes'] at e⟩
+
+theorem validate_ok {lim : Limits} {es : Bool} {hl : List (Bytes × Bytes)} {r : Req}
+    (h : validateRequest lim es hl = .ok r) :
+    ∃ s r0, foldHeaders lim hl {} = .ok s ∧ finishDecode s = .ok r0 ∧ finishFraming es r0 = .ok r := by
+  unfold validateRequest decodeRequest at h
+  cases hf : foldHeaders lim hl {} with
+  | error e => simp [hf] at h
+  | ok s =>
+    simp only [hf] at h
+    cases hd : finishDecode s with
+    | error e => simp [hd] at h
+    | ok r0 => simp only [hd] at h; exact ⟨s, r0, rfl, hd, h⟩
+
+theorem validate_clean (lim : Limits) (es : Bool) (hl : List (Bytes × Bytes)) (r : Req)
+    (h : validateRequest lim es hl = .ok r) : Clean r := by
+  obtain ⟨s, r0, hf, hd, hfr⟩ := validate_ok h
+  have hc := fold_clean hl VClean.init hf
+  obtain ⟨d1, d2, d3, d4, d5, d6⟩ := finishDecode_ok hd
+  obtain ⟨f1, f2, f3, f4, f5⟩ := finishFraming_ok hfr
+  have hfields : ∀ k v, Field.hdr k v ∈ r.fields → (Field.hdr k v ∈ s.fields) ∨
+      (k = cContentLength ∧ v = [48]) ∨ (k = cTransferEncoding ∧ v = sChunked) := by
+    intro k v hm
+    rcases f5 with ⟨e, _⟩ | ⟨_, _, _, e⟩ | ⟨_, _, _, e⟩
+    · rw [e, d4] at hm; exact .inl hm
+    · rw [e, d4] at hm
+      rcases List.mem_append.mp hm with hm | hm
+      · exact .inl hm
+      · simp at hm; exact .inr (.inl hm)
+    · rw [e, d4] at hm
+      rcases List.mem_append.mp hm with hm | hm
+      · exact .inl hm
+      · simp at hm; exact .inr (.inr hm)
+  have hm := hc.method _ d1
+  have hp := hc.path _ d2
+  have ha := hc.authority _ d3
+  have hline : ∀ kv ∈ emitted r, NameOK kv.1 ∧ ValueOK kv.2 := by
+    intro kv hkv
+    simp only [emitted, List.mem_cons] at hkv
+    rcases hkv with rfl | hkv
+    · have hn : NameOK cHost := ⟨by decide, by decide⟩
+      refine ⟨hn, ?_⟩
+      show ValueOK r.host
+      rw [f3]; exact valueOK_of_pseudo ha.2
+    · rcases emitFields_mem _ _ _ hkv with ⟨k, v, hmem, rfl⟩ | ⟨e1, cs, hcs, e2⟩
+      · rcases hfields k v hmem with hmem' | ⟨rfl, rfl⟩ | ⟨rfl, rfl⟩
+        · have := hc.fields k v hmem'; exact ⟨this.1, this.2.2.1⟩
+        · have hn : NameOK cContentLength := ⟨by decide, by decide⟩
+          have hv : ValueOK [48] := by decide
+          exact ⟨hn, hv⟩
+        · have hn : NameOK cTransferEncoding := ⟨by decide, by decide⟩
+          have hv : ValueOK sChunked := by decide
+          exact ⟨hn, hv⟩
+      · have hn : NameOK cCookie := ⟨by decide, by decide⟩
+        refine ⟨by rw [e1]; exact hn, ?_⟩
+        rw [e2]
+        apply joinCrumbs_ok
+        intro c hcm
+        have := hcs c hcm
+        rw [f4, d5] at this
+        have := hc.jar c this
+        exact ⟨this.1, this.2.1⟩
+  exact
+    { method_ne := by rw [f1]; exact hm.1, method_tok := by rw [f1]; exact hm.2,
+      target_ne := by rw [f2]; exact hp.1, target_ok := by rw [f2]; exact hp.2,
+      host_ne := by rw [f3]; exact ha.1, host_ok := by rw [f3]; exact ha.2,
+      names := fun kv hkv => (hline kv hkv).1, values := fun kv hkv => (hline kv hkv).2,
+      client_lower := by
+        intro k v hmem
+        rcases hfields k v hmem with hmem' | h2 | h3
+        · exact .inl (hc.fields k v hmem').2.1
+        · exact .inr (.inl h2)
+        · exact .inr (.inr h3) }
+
+theorem step_body_shape {lim : Limits} {s s' : VS} {kv : Bytes × Bytes} (hb : s.body ≠ .chunked)
+    (h : stepHeader lim s kv = .ok s') : s'.body ≠ .chunked := by
+  rcases perHeader_cases (stepHeader_ok h).2 with ⟨_, _, _, _, _, rfl⟩ | ⟨_, _, _, rfl⟩ | ⟨_, _, _, _, _, rfl⟩ | ⟨_, _, _, _, _, rfl⟩ |
+    ⟨_, _, hc⟩ | ⟨_, _, _, rfl | rfl⟩ | ⟨_, _, _, hw⟩
+  · exact hb
+  · exact hb
+  · exact hb
+  · exact hb
+  · have := (cookieLoop_core _ _ _ _ _ hc).2.2.2.2.2.1; rw [this]; exact hb
+  · exact hb
+  · exact hb
+  · rcases (writeRegular_ok hw).2.2.2.2.2.2.2.2.2.2 with ⟨_, e⟩ | ⟨_, _, _, e, _⟩
+    · rw [e]; exact hb
+    · rw [e]; simp
+
+theorem validate_framing (lim : Limits) (es : Bool) (hl : List (Bytes × Bytes)) (r : Req)
+    (h : validateRequest lim es hl = .ok r) : (es = true → r.body = .length 0) ∧ r.body ≠ .empty := by
+  obtain ⟨s, r0, hf, hd, hfr⟩ := validate_ok h
+  have hs : s.body ≠ .chunked :=
+    foldHeaders_pres (fun s => s.body ≠ .chunked) (fun _ _ _ hp hs => step_body_shape hp hs) hl (by simp) hf
+  obtain ⟨_, _, _, _, _, d6⟩ := finishDecode_ok hd
+  obtain ⟨_, _, _, _, f5⟩ := finishFraming_ok hfr
+  rcases f5 with ⟨_, e, hsh⟩ | ⟨e1, _, e, _⟩ | ⟨e1, _, e, _⟩
+  · rcases hsh with hsh | ⟨n, hn, hz⟩
+    · rw [d6] at hsh; exact (hs hsh).elim
+    · rw [e, hn]; exact ⟨fun he => by rw [hz he], by simp⟩
+  · rw [e]; exact ⟨fun _ => rfl, by simp⟩
+  · rw [e]; exact ⟨fun he => by simp [e1] at he, by simp⟩
+
+-- ---------------------------------------------------------------- trailers --
+
+theorem trailerFold_clean (lim : Limits) (maxDecoded : Nat) (hl : List (Bytes × Bytes)) :
+    ∀ (st : Nat × Nat × List (Bytes × Bytes)) (t : List (Bytes × Bytes)),
+      (∀ kv ∈ st.2.2, LineOK kv ∧ kv.1 ∉ Consts.hdrTrailerElided) →
+      trailerFold lim maxDecoded hl st = .ok t → ∀ kv ∈ t, LineOK kv ∧ kv.1 ∉ Consts.hdrTrailerElided := by
+  induction hl with
+  | nil => intro st t hst h; simp [trailerFold] at h; subst h; exact hst
+  | cons x tl ih =>
+    intro st t hst h
+    simp only [trailerFold] at h
+    cases hs : trailerStep lim maxDecoded st x with
+    | error e => simp [hs] at h
+    | ok st' =>
+      simp only [hs] at h
+      refine ih st' t ?_ h
+      unfold trailerStep at hs
+      simp only at hs
+      split at hs; · cases hs
+      split at hs; · cases hs
+      split at hs; · cases hs
+      next hhead =>
+      split at hs
+      · cases hs
+      · next hcl =>
+        obtain ⟨kne, kname, _, vok⟩ := classifyHeader_none hcl
+        split at hs
+        · cases hs; exact hst
+        · next hel =>
+          cases hs
+          intro kv hkv
+          rcases List.mem_append.mp hkv with hkv | hkv
+          · exact hst kv hkv
+          · simp only [List.mem_cons, List.mem_nil_iff, or_false] at hkv
+            rw [hkv]
+            have hv : hasInvalidNameByte x.1 = false := by
+              rcases kname with e | e
+              · simp [e] at hhead
+              · exact e
+            obtain ⟨n1, _⟩ := name_of_valid kne hv
+            refine ⟨⟨n1.1, n1.2, ?_⟩, by simpa using hel⟩
+            intro b hb
+            have hnb := vok b hb
+            cases hfv : isFieldValueByte b with
+            | true => rfl
+            | false =>
+              exfalso
+              simp only [isFieldValueByte, Bool.or_eq_false_iff, beq_eq_false_iff_ne, ne_eq,
+                Bool.and_eq_false_iff, decide_eq_false_iff_not, Nat.not_le, bne_eq_false_iff_eq] at hfv
+              have hsmall : ∀ c, c < 32 → c ≠ 9 → isBadValueByte c = true := by decide
+              rcases hfv.2 with hlt | he
+              · have := hsmall b hlt hfv.1; simp [hnb] at this
+              · subst he; simp [isBadValueByte, isCtlValueByte, Consts.hdrValueCtlImmediate] at hnb
+
+theorem trailer_clean (lim : Limits) (hl t : List (Bytes × Bytes)) (h : handleTrailer lim true hl = .ok t) :
+    ∀ kv ∈ t, LineOK kv ∧ kv.1 ∉ Consts.hdrTrailerElided := by
+  unfold handleTrailer at h
+  simp only [Bool.not_true, Bool.false_eq_true, ↓reduceIte] at h
+  exact trailerFold_clean lim _ hl _ t (by simp) h
+
+-- ============================================== accepted ⇒ well-formed ==
+
+theorem foldHeaders_pres_mem {lim : Limits} (P : VS → Prop) (hl : List (Bytes × Bytes)) :
+    ∀ (all : List (Bytes × Bytes)), (∀ kv ∈ hl, kv ∈ all) →
+      (∀ s s' kv, kv ∈ all → P s → stepHeader lim s kv = .ok s' → P s') →
+      ∀ {s s' : VS}, P s → foldHeaders lim hl s = .ok s' → P s' := by
+  induction hl with
+  | nil => intro all _ _ s s' hp h; simp [foldHeaders] at h; subst h; exact hp
+  | cons kv tl ih =>
+    intro all hsub hP s s' hp h
+    simp only [foldHeaders] at h
+    cases hs : stepHeader lim s kv with
+    | error r => simp [hs] at h
+    | ok s1 =>
+      simp only [hs] at h
+      exact ih all (fun x hx => hsub x (by simp [hx])) hP (hP s s1 kv (hsub kv (by simp)) hp hs) h
+
+theorem fieldValue_of_ok {v : Bytes} (h : ValueOK v) : ∀ b ∈ v, isFieldValueByte b = true := by
+  intro b hb
+  have hnb := h b hb
+  cases hfv : isFieldValueByte b with
+  | true => rfl
+  | false =>
+    exfalso
+    simp only [isFieldValueByte, Bool.or_eq_false_iff, beq_eq_false_iff_ne, ne_eq,
+      Bool.and_eq_false_iff, decide_eq_false_iff_not, Nat.not_le, bne_eq_false_iff_eq] at hfv
+    have hsmall : ∀ c, c < 32 → c ≠ 9 → isBadValueByte c = true := by decide
+    rcases hfv.2 with hlt | he
+    · have := hsmall b hlt hfv.1; simp [hnb] at this
+    · subst he; simp [isBadValueByte, isCtlValueByte, Consts.hdrValueCtlImmediate] at hnb
+
+theorem target_of_pseudo {p : Bytes} (h : ∀ b ∈ p, isBadPseudoByte b = false) (hsp : 32 ∉ p) :
+    ∀ b ∈ p, isTargetByte b = true := by
+  intro b hb
+  have hnb := h b hb
+  have hsmall : ∀ c, c < 32 → isBadPseudoByte c = true := by decide
+  have h127 : isBadPseudoByte 127 = true := by decide
+  simp only [isTargetByte, Bool.and_eq_true, decide_eq_true_eq, bne_iff_ne, ne_eq]
+  refine ⟨?_, ?_⟩
+  · by_cases hlt : b < 32
+    · have := hsmall b hlt; simp [hnb] at this
+    · have : b ≠ 32 := fun e => hsp (e ▸ hb)
+      omega
+  · intro e; subst e; simp [hnb] at h127
+
+/-- `(name, trimmed value)` of a header block -/
+def pairOf : Field → Option (Bytes × Bytes)
+  | .hdr k v => some (k, trimOws v)
+  | .cookies => none
+
+theorem named_emitFields (n : Bytes) (hn : eqNoCase cCookie n = false) (fs : List Field) (jar : List Crumb) :
+    named n (readBack (emitFields fs jar)) = (fs.filter (isHdrNamed n)).filterMap pairOf := by
+  induction fs generalizing jar with
+  | nil => simp [emitFields, readBack, named]
+  | cons f tl ih =>
+    cases f with
+    | hdr k v =>
+      have := ih jar
+      simp only [named, readBack] at this
+      simp only [emitFields, readBack, named, List.map_cons, List.filter_cons, isHdrNamed]
+      by_cases hk : eqNoCase k n = true
+      · simp [hk, pairOf, this]
+      · simp [hk, this]
+    | cookies =>
+      simp only [emitFields]
+      split
+      · have := ih jar
+        simpa [List.filter_cons, isHdrNamed] using this
+      · have := ih []
+        simp only [named, readBack] at this
+        simp [readBack, named, List.filter_cons, isHdrNamed, hn, this]
+
+theorem trimOws_digits {v : Bytes} (h : v.all isDigit = true) : trimOws v = v := by
+  have hno : ∀ b ∈ v, isOws b = false := by
+    intro b hb
+    have := List.all_eq_true.mp h b hb
+    simp only [isDigit, Bool.and_eq_true, decide_eq_true_eq] at this
+    simp only [isOws, Bool.or_eq_false_iff, beq_eq_false_iff_ne, ne_eq]
+    omega
+  have hd : ∀ l : Bytes, (∀ b ∈ l, isOws b = false) → l.dropWhile isOws = l := by
+    intro l hl
+    cases l with
+    | nil => rfl
+    | cons a t => simp [List.dropWhile, hl a (by simp)]
+  unfold trimOws
+  rw [hd v hno, hd v.reverse (by intro b hb; exact hno b (by simpa using hb))]
+  simp
+
+/-- no `content-length` seen yet -/
+def NoCL (s : VS) : Prop := s.body = .empty ∧ ∀ f ∈ s.fields, isHdrNamed sContentLength f = false
+/-- exactly one `content-length` seen -/
+def OneCL (k v : Bytes) (s : VS) : Prop :=
+  s.body = .length (decVal v) ∧ v ≠ [] ∧ v.all isDigit = true ∧ s.fields.filter (isHdrNamed sContentLength) = [.hdr k v]
+
+theorem step_noncl {lim : Limits} {s s' : VS} {kv : Bytes × Bytes} (hk : eqNoCase kv.1 sContentLength = false)
+    (h : stepHeader lim s kv = .ok s') :
+    s'.body = s.body ∧ ∃ extra, s'.fields = s.fields ++ extra ∧ ∀ f ∈ extra, isHdrNamed sContentLength f = false := by
+  rcases perHeader_cases (stepHeader_ok h).2 with ⟨_, _, _, _, _, rfl⟩ | ⟨_, _, _, rfl⟩ | ⟨_, _, _, _, _, rfl⟩ | ⟨_, _, _, _, _, rfl⟩ |
+    ⟨_, _, hc⟩ | ⟨_, _, _, rfl | rfl⟩ | ⟨_, _, _, hw⟩
+  · exact ⟨rfl, [], by simp, by simp⟩
+  · exact ⟨rfl, [], by simp, by simp⟩
+  · exact ⟨rfl, [], by simp, by simp⟩
+  · exact ⟨rfl, [], by simp, by simp⟩
+  · obtain ⟨⟨extra, he, hx⟩, _⟩ := cookieLoop_adds _ _ _ _ _ hc
+    have := (cookieLoop_core _ _ _ _ _ hc).2.2.2.2.2.1
+    exact ⟨by simpa using this, extra, by simpa using he, fun f hf => by rw [hx f hf]; rfl⟩
+  · exact ⟨rfl, [], by simp, by simp⟩
+  · exact ⟨rfl, [], by simp, by simp⟩
+  · obtain ⟨w1, _, _, _, _, _, _, _, _, _, w9⟩ := writeRegular_ok hw
+    rcases w9 with ⟨_, hb⟩ | ⟨hk', _⟩
+    · exact ⟨by simpa using hb, [.hdr kv.1 kv.2], by simpa using w1, by
+        intro f hf; simp at hf; subst hf; simpa [isHdrNamed] using hk⟩
+    · simp [hk] at hk'
+
+theorem noCL_step {lim : Limits} {s s' : VS} {kv : Bytes × Bytes} (hk : eqNoCase kv.1 sContentLength = false)
+    (hp : NoCL s) (h : stepHeader lim s kv = .ok s') : NoCL s' := by
+  obtain ⟨hb, extra, he, hx⟩ := step_noncl hk h
+  refine ⟨by rw [hb]; exact hp.1, ?_⟩
+  intro f hf
+  rw [he] at hf
+  rcases List.mem_append.mp hf with hf | hf
+  · exact hp.2 f hf
+  · exact hx f hf
+
+theorem oneCL_step {lim : Limits} {s s' : VS} {kv : Bytes × Bytes} {k v : Bytes}
+    (hk : eqNoCase kv.1 sContentLength = false) (hp : OneCL k v s) (h : stepHeader lim s kv = .ok s') : OneCL k v s' := by
+  obtain ⟨hb, extra, he, hx⟩ := step_noncl hk h
+  refine ⟨by rw [hb]; exact hp.1, hp.2.1, hp.2.2.1, ?_⟩
+  rw [he, List.filter_append, hp.2.2.2]
+  have : extra.filter (isHdrNamed sContentLength) = [] := by
+    simp only [List.filter_eq_nil_iff, Bool.not_eq_true]
+    exact hx
+  simp [this]
+
+theorem filter_le_one_split {α : Type} (p : α → Bool) (l : List α) (h : (l.filter p).length ≤ 1) :
+    (∀ x ∈ l, p x = false) ∨
+    ∃ pre x post, l = pre ++ x :: post ∧ p x = true ∧ (∀ y ∈ pre, p y = false) ∧ (∀ y ∈ post, p y = false) := by
+  induction l with
+  | nil => exact .inl (by simp)
+  | cons a t ih =>
+    by_cases ha : p a = true
+    · have hlen : ((a :: t).filter p).length = (t.filter p).length + 1 := by simp [List.filter_cons, ha]
+      have ht : (t.filter p).length = 0 := by omega
+      have ht' : ∀ y ∈ t, p y = false := by
+        have : t.filter p = [] := List.eq_nil_of_length_eq_zero ht
+        simpa [List.filter_eq_nil_iff] using this
+      exact .inr ⟨[], a, t, rfl, ha, by simp, ht'⟩
+    · have ha' : p a = false := by simpa using ha
+      have : (t.filter p).length ≤ 1 := by simpa [List.filter_cons, ha'] using h
+      rcases ih this with hall | ⟨pre, x, post, e, hx, hpre, hpost⟩
+      · exact .inl (by intro y hy; rcases List.mem_cons.mp hy with rfl | hy; exact ha'; exact hall y hy)
+      · exact .inr ⟨a :: pre, x, post, by simp [e], hx,
+          by intro y hy; rcases List.mem_cons.mp hy with rfl | hy; exact ha'; exact hpre y hy, hpost⟩
+
+/-- the content-length bookkeeping at the end of the fold, for a header list
+    with at most one `content-length` field -/
+theorem fold_cl {lim : Limits} (hl : List (Bytes × Bytes)) (s : VS)
+    (hcl : (hl.filter fun kv => eqNoCase kv.1 sContentLength).length ≤ 1)
+    (h : foldHeaders lim hl {} = .ok s) : NoCL s ∨ ∃ k v, OneCL k v s := by
+  rcases filter_le_one_split _ hl hcl with hall | ⟨pre, x, post, e, hx, hpre, hpost⟩
+  · exact .inl (foldHeaders_pres_mem NoCL hl hl (fun _ h => h)
+      (fun s s' kv hm hp hs => noCL_step (hall kv hm) hp hs) ⟨rfl, by simp⟩ h)
+  · subst e
+    rcases foldHeaders_append (lim := lim) pre (x :: post) {} with ⟨e, he⟩ | ⟨s1, h1, h2⟩
+    · rw [he] at h; cases h
+    · rw [h2] at h
+      simp only [foldHeaders] at h
+      cases hs : stepHeader lim s1 x with
+      | error r => simp [hs] at h
+      | ok s2 =>
+        simp only [hs] at h
+        have p1 : NoCL s1 := foldHeaders_pres_mem NoCL pre pre (fun _ h => h)
+          (fun s s' kv hm hp hs => noCL_step (hpre kv hm) hp hs) ⟨rfl, by simp⟩ h1
+        obtain ⟨c1, c2, c3, _, c5, _⟩ := step_cl (k := x.1) (v := x.2) hx hs
+        have p2 : OneCL x.1 x.2 s2 := by
+          refine ⟨c1, c2, c3, ?_⟩
+          rw [c5, List.filter_append]
+          have : s1.fields.filter (isHdrNamed sContentLength) = [] := by
+            simp only [List.filter_eq_nil_iff, Bool.not_eq_true]
+            exact p1.2
+          simp [this, isHdrNamed, hx]
+        exact .inr ⟨x.1, x.2, foldHeaders_pres_mem (OneCL x.1 x.2) post post (fun _ h => h)
+          (fun s s' kv hm hp hs => oneCL_step (hpost kv hm) hp hs) p2 h⟩
+
+/-- the `:path` value in the state is one of the `:path` values of the list -/
+theorem fold_path {lim : Limits} (hl : List (Bytes × Bytes)) (s : VS) (h : foldHeaders lim hl {} = .ok s) :
+    ∀ p, s.path = some p → ∃ kv ∈ hl, eqNoCase kv.1 sPath = true ∧ kv.2 = p := by
+  refine foldHeaders_pres_mem (fun s => ∀ p, s.path = some p → ∃ kv ∈ hl, eqNoCase kv.1 sPath = true ∧ kv.2 = p)
+    hl hl (fun _ h => h) ?_ (by simp) h
+  intro s s' kv hm hp hs
+  rcases perHeader_cases (stepHeader_ok hs).2 with ⟨_, _, _, _, _, rfl⟩ | ⟨_, _, _, rfl⟩ | ⟨a, _, _, _, _, rfl⟩ | ⟨_, _, _, _, _, rfl⟩ |
+    ⟨_, _, hc⟩ | ⟨_, _, _, rfl | rfl⟩ | ⟨_, _, _, hw⟩
+  · exact hp
+  · exact hp
+  · intro p e; simp at e; exact ⟨kv, hm, a, e⟩
+  · exact hp
+  · have := (cookieLoop_core _ _ _ _ _ hc).2.2.1; intro p e; rw [this] at e; exact hp p e
+  · exact hp
+  · exact hp
+  · have := (writeRegular_ok hw).2.2.2.2.1; intro p e; rw [this] at e; exact hp p e
+
+theorem validate_wf (lim : Limits) (es : Bool) (hl : List (Bytes × Bytes)) (r : Req)
+    (h : validateRequest lim es hl = .ok r)
+    (hsp : ∀ kv ∈ hl, eqNoCase kv.1 sPath = true → 32 ∉ kv.2)
+    (hcl : (hl.filter fun kv => eqNoCase kv.1 sContentLength).length ≤ 1) : WF r := by
+  have hclean := validate_clean lim es hl r h
+  obtain ⟨s, r0, hf, hd, hfr⟩ := validate_ok h
+  have hc := fold_clean hl VClean.init hf
+  obtain ⟨d1, d2, d3, d4, d5, d6⟩ := finishDecode_ok hd
+  obtain ⟨f1, f2, f3, f4, f5⟩ := finishFraming_ok hfr
+  have hs : s.body ≠ .chunked :=
+    foldHeaders_pres (fun s => s.body ≠ .chunked) (fun _ _ _ hp hs => step_body_shape hp hs) hl (by simp) hf
+  -- target without SP
+  have htarget : ∀ b ∈ r.target, isTargetByte b = true := by
+    obtain ⟨kv, hm, hk, hv⟩ := fold_path hl s hf r0.target d2
+    rw [f2]
+    exact target_of_pseudo (by rw [← f2]; exact hclean.target_ok) (by rw [← hv]; exact hsp kv hm hk)
+  -- no Host / Transfer-Encoding among the client's fields
+  have hnoHost : s.fields.filter (isHdrNamed sHost) = [] := by
+    simp only [List.filter_eq_nil_iff, Bool.not_eq_true]
+    intro f hfm
+    cases f with
+    | cookies => rfl
+    | hdr k v => simpa [isHdrNamed] using (hc.fields k v hfm).2.2.2.1
+  have hnoTE : s.fields.filter (isHdrNamed sTransferEncoding) = [] := by
+    simp only [List.filter_eq_nil_iff, Bool.not_eq_true]
+    intro f hfm
+    cases f with
+    | cookies => rfl
+    | hdr k v => simpa [isHdrNamed] using (hc.fields k v hfm).2.2.2.2
+  have ck1 : eqNoCase cCookie sHost = false := by decide
+  have ck2 : eqNoCase cCookie sTransferEncoding = false := by decide
+  have ck3 : eqNoCase cCookie sContentLength = false := by decide
+  have hn1 : ∀ fs : List Field, named sHost (readBack (emitted { r with fields := fs })) =
+      (cHost, trimOws r.host) :: (fs.filter (isHdrNamed sHost)).filterMap pairOf := by
+    intro fs
+    have := named_emitFields sHost ck1 fs r.jar
+    simp only [named, readBack] at this
+    simp [emitted, readBack, named, this, show eqNoCase cHost sHost = true by decide]
+  have hn2 : ∀ (n : Bytes), eqNoCase cHost n = false → eqNoCase cCookie n = false →
+      named n (readBack (emitted r)) = (r.fields.filter (isHdrNamed n)).filterMap pairOf := by
+    intro n h1 h2
+    have := named_emitFields n h2 r.fields r.jar
+    simp only [named, readBack] at this
+    simp [emitted, readBack, named, this, h1]
+  have hTE := hn2 sTransferEncoding (by decide) ck2
+  have hCL := hn2 sContentLength (by decide) ck3
+  have hHost : (named sHost (readBack (emitted r))).length = 1 := by
+    have := hn1 r.fields
+    rw [show ({ r with fields := r.fields } : Req) = r from rfl] at this
+    rw [this]
+    have : r.fields.filter (isHdrNamed sHost) = [] := by
+      rcases f5 with ⟨e, _⟩ | ⟨_, _, _, e⟩ | ⟨_, _, _, e⟩
+      · rw [e, d4]; exact hnoHost
+      · rw [e, d4, List.filter_append, hnoHost]; decide
+      · rw [e, d4, List.filter_append, hnoHost]; decide
+    simp [this]
+  refine
+    { method_ne := hclean.method_ne, method_tok := hclean.method_tok, target_ne := hclean.target_ne,
+      target_ok := htarget,
+      lines_ok := fun kv hkv => ⟨(hclean.names kv hkv).1, (hclean.names kv hkv).2, fieldValue_of_ok (hclean.values kv hkv)⟩,
+      one_host := hHost, framing := ?_ }
+  unfold framingOf
+  rw [hTE, hCL]
+  rcases fold_cl hl s hcl hf with hno | ⟨k, v, hone⟩
+  · -- no content-length: sozu adds exactly one framing header
+    have hnoCL : s.fields.filter (isHdrNamed sContentLength) = [] := by
+      simp only [List.filter_eq_nil_iff, Bool.not_eq_true]; exact hno.2
+    rcases f5 with ⟨_, _, hsh⟩ | ⟨_, _, eb, e⟩ | ⟨_, _, eb, e⟩
+    · rcases hsh with hsh | ⟨n, hn, _⟩
+      · rw [d6] at hsh; exact (hs hsh).elim
+      · rw [d6, hno.1] at hn; cases hn
+    · rw [e, d4, List.filter_append, List.filter_append, hnoTE, hnoCL, eb]
+      decide
+    · rw [e, d4, List.filter_append, List.filter_append, hnoTE, hnoCL, eb]
+      decide
+  · -- one content-length: forwarded as is, nothing added
+    rcases f5 with ⟨e, eb, _⟩ | ⟨_, eb0, _, _⟩ | ⟨_, eb0, _, _⟩
+    · rw [e, d4, hnoTE, hone.2.2.2, eb, d6, hone.1]
+      simp only [List.filterMap_nil, List.filterMap_cons, pairOf, trimOws_digits hone.2.2.1]
+      have hne := hone.2.1
+      have : v.isEmpty = false := by
+        cases hv : v with
+        | nil => exact (hne hv).elim
+        | cons a t => rfl
+      simp [this, hone.2.2.1, toFraming]
+    · rw [d6, hone.1] at eb0; cases eb0
+    · rw [d6, hone.1] at eb0; cases eb0
+
 end Sozu.Headers
